@@ -19,7 +19,8 @@ RULE = (
     "(directive class, first line, content[, additional options]) triples: contents enumerated exhaustively from a "
     "per-class line vocabulary (valid/unknown/invalid/empty option, blank, text, '---', '----', indented option, "
     "':not option', 'k: v') up to the tier's length for every registry class (distinct by construction), random "
-    "contents to length 12 and option-style interchange pairs (distinct by hash); non-trivial = content has >= 2 lines"
+    "contents to length 12 and option-style interchange pairs (distinct by hash); every option of every class x every sample value and the empty value in both option "
+    "styles (exhaustive); the registry includes autodoc & co and two harness classes whose option spec answers through __getitem__ / __missing__; non-trivial = content has >= 2 lines"
 )
 ASSUME = [
     "key/value extraction inside the option block is the tokenizer's business (C07); the model reuses options_to_items "
